@@ -435,6 +435,14 @@ class ProgGen:
                 routines[0]["body"] = []
                 spots = [routines[0]]
             body = self.r.choice(spots)["body"]
+            if not cfg.flat and self.r.random() < 0.15:
+                # a label that only jumps reach: behind a terminator at the end of a routine (dead in its own routine when
+                # the jump comes from another one)
+                self.hit("label_behind_terminator")
+                if not (body and self.ends_flow(body[-1])):
+                    body.append({"t": "ctrl", "k": self.r.choice(["return", "end", "hold"])})
+                body += [{"t": "label", "name": nm}, self.plain(), {"t": "ctrl", "k": self.r.choice(["return", "end", "hold"])}]
+                continue
             tgt = self.pick_block(body)
             tgt.insert(self.r.randint(0, len(tgt)), {"t": "label", "name": nm})
         return {"imports": [], "macros": [], "routines": routines}
